@@ -17,7 +17,7 @@ LOG=$DST/confirm.log
 : > $LOG
 set +e
 echo "== demo on unchanged tree" >> $LOG
-( sh $DST/demo/run.sh $V ) >> $LOG 2>&1; RC_CLEAN=$?
+( bash $DST/demo/run.sh $V ) >> $LOG 2>&1; RC_CLEAN=$?
 echo "exit=$RC_CLEAN" >> $LOG
 echo "== apply patch" >> $LOG
 git -C $V apply $DST/patch.diff >> $LOG 2>&1; RC_APPLY=$?
@@ -26,7 +26,7 @@ echo "== baseline with patch" >> $LOG
 /verif/tools/baseline.sh $V $V/_build >> $LOG 2>&1; RC_BASE=$?
 echo "exit=$RC_BASE" >> $LOG
 echo "== demo with patch" >> $LOG
-( sh $DST/demo/run.sh $V ) >> $LOG 2>&1; RC_PATCH=$?
+( bash $DST/demo/run.sh $V ) >> $LOG 2>&1; RC_PATCH=$?
 echo "exit=$RC_PATCH" >> $LOG
 echo "== check $PROP on patched tree" >> $LOG
 rm -rf $V/_build
